@@ -212,7 +212,8 @@ type fwdCmd struct {
 	DB   int // effective database at the target
 	Name string
 	Args [][]byte
-	End  int64 // source stream position after the command
+	End  int64     // source stream position after the command
+	At   time.Time // when the model target executed it (observed commands only)
 }
 
 func (f fwdCmd) key() string {
@@ -381,7 +382,7 @@ func appliedCommands(log []miniredis.Logged, own string, incrConn int) (out []fw
 		if l.Reply == "queued" {
 			continue // the queued echo of a command inside MULTI; the applied one follows with InTx
 		}
-		out = append(out, fwdCmd{DB: l.DB, Name: l.Name, Args: l.Args})
+		out = append(out, fwdCmd{DB: l.DB, Name: l.Name, Args: l.Args, At: l.At})
 	}
 	return
 }
